@@ -374,6 +374,8 @@ public:
 			ar.swap(tmp);
 		}
 		catch(std::bad_alloc const &) {
+			// The new value can't be kept, at least never serve the value it supersedes
+			remove(key);
 			return;
 		}
 
